@@ -79,6 +79,8 @@ def enc(v):
         return {"__d__": [[enc(k), enc(t)] for k, t in v.items()]}
     if isinstance(v, slice):
         return {"__sl__": [enc(v.start), enc(v.stop), enc(v.step)]}
+    if isinstance(v, range):
+        return {"__rg__": [v.start, v.stop, v.step]}
     if v is Ellipsis:
         return {"__el__": 1}
     if isinstance(v, onp.dtype):
@@ -123,6 +125,8 @@ def dec(v):
             return {dec(k): dec(t) for k, t in v["__d__"]}
         if "__sl__" in v:
             return slice(*[dec(t) for t in v["__sl__"]])
+        if "__rg__" in v:
+            return range(*v["__rg__"])
         if "__el__" in v:
             return Ellipsis
         if "__dt__" in v:
